@@ -227,6 +227,15 @@ def op_strategies(nparts, ngroups, profile):
         'orphanbl': st.tuples(idx, st.integers(0, 31).map(lambda v: 2 * v + 1))
         .map(lambda t: ['macro', [['rmsrv', t[0]], ['bl', t[1], True],
                                   ['cycle']]]),
+        # macro: the largest server of a rack fails, a smaller one joins the
+        # rack, work lands on what was left (the aggregates of the rack and
+        # of everything above it go down, up and down again)
+        'rackshift': st.tuples(idx, st.integers(0, 2), st.integers(0, 3),
+                               st.booleans())
+        .map(lambda t: ['macro', [['downbig', t[0]]] +
+                        ([['cycle']] if t[3] else []) +
+                        [['srvsmall', t[0], t[1]], ['appbig', t[0], t[2]],
+                         ['cycle']]]),
         # ... or its identity group shrinks before the next cycle
         'orphanidg': st.tuples(idx, st.integers(0, max(0, ngroups - 1)),
                                st.integers(0, 2))
@@ -257,7 +266,7 @@ def flatten(ops):
 DEFAULT_WEIGHTS = {
     'app': 10, 'clone': 2, 'rm': 2, 'prio': 1, 'move': 1, 'srv': 1, 'rmsrv': 1,
     'readd': 1, 'down': 2, 'up': 2, 'downseq': 0, 'freezeflip': 0,
-    'orphanbl': 0, 'orphanrm': 0, 'orphanidg': 0, 'stalemark': 0, 'renewearly': 0,
+    'orphanbl': 0, 'orphanrm': 0, 'rackshift': 0, 'orphanidg': 0, 'stalemark': 0, 'renewearly': 0,
     'clone2': 0, 'freezedown': 0, 'fdown': 0, 'fill': 0, 'fillclone2': 0, 'freezepress': 0, 'notupmove': 0, 'freezework': 0, 'renewold': 0, 'freeze': 1, 'unfreeze': 1, 'bl': 1,
     'renew': 1, 'idg': 1, 'rmidg': 1, 'strat': 1, 'adv': 2, 'adv_ret': 1,
     'tick': 1, 'cycle': 8,
